@@ -17,7 +17,7 @@ RULE = ("scenario = 1-2 random upstream repositories (1-2 codenames, 1-3 compone
         "with a non-empty fault plan or switch or local fault, distinct by (class, fault kinds, target kind)")
 
 CLASSES = ["none", "transient", "transient", "persistent-required", "persistent-optional", "switch", "local-dir",
-           "transient", "persistent-ignored", "unlisted-uncompressed", "variant-downgrade", "after-crash"]
+           "transient", "persistent-ignored", "unlisted-uncompressed", "variant-downgrade", "after-crash", "ignore-prefix-sibling"]
 
 
 def after_crash(chk, sseed):
@@ -80,9 +80,67 @@ def after_crash(chk, sseed):
         w.destroy()
 
 
+def ignore_prefix_sibling(chk, sseed):
+    """an ignore_errors entry excuses what lies below that directory, not what merely starts with the same characters:
+    `pool/<c>/p/pkg7` (with or without a trailing slash) says nothing about `pool/<c>/p/pkg70/...`.  The sibling's package
+    cannot be obtained (any persistent fault): the run must not exit 0 with that file missing."""
+    rng = random.Random(sseed)
+    w = common.World(rng, 1, select_all=True)
+    try:
+        repo = w.repos[0]
+        url = repo["url"]
+        cands = [(cn, comp, arch) for cn, cs in sorted(repo["codenames"].items()) for comp, cp in sorted(cs["components"].items())
+                 for arch in sorted(cp.get("binaries", {}))
+                 if arch != "all" and arch in w.cfgs[url]["codenames"].get(cn, {}).get(comp, {}).get("arches", [])]
+        if not cands:
+            chk.evaluated(None)
+            return
+        cn, comp, arch = rng.choice(cands)
+        short, long_ = rng.choice([(7, 70 + rng.randint(0, 9)), (4, 40 + rng.randint(0, 9)), (12, 120 + rng.randint(0, 9))])
+        pk_s, pk_l = upstream.gen_pkg(rng, comp, arch, short), upstream.gen_pkg(rng, comp, arch, long_)
+        lst = repo["codenames"][cn]["components"][comp]["binaries"][arch]
+        lst[:] = [p for p in lst if p["name"] not in (pk_s["name"], pk_l["name"])] + [pk_s, pk_l]
+        entry = pk_s["filename"].rsplit("/", 1)[0]
+        how = rng.choice(["dir", "dir/", "letter-part"])
+        if how == "letter-part":
+            entry = entry.rsplit("/", 1)[0] + "/pk"     # no such directory: names nothing at all
+        line_entry = entry + ("/" if how == "dir/" else "")
+        w.lines = [ln for ln in w.lines if not ln.startswith(("ignore_errors ", "include_", "exclude_"))] + [f"ignore_errors {url} {line_entry}"]
+        w.cfgs[url]["ignore_errors"] = [entry]
+        w.cfgs[url]["filters"] = {}
+        w.sb.write_config(w.lines, w.settings)
+        stores = w.stores()
+        if common.has_s3(repo, w.cfgs[url], stores[url]) or pk_l["filename"] not in scenario.referenced_pool(repo, w.cfgs[url]):
+            chk.evaluated(None)
+            chk.count("ignore-prefix-sibling:skipped")
+            return
+        fault = rng.choice(scenario.FAULTS)
+        plans = {url: [[pk_l["filename"], "*", fault]]}
+        res = run_e2e.execute(w.sb, w.repos, stores, plans, vloop.RandomChooser(rng.randrange(1 << 30)))
+        replay = {"scenario_seed": sseed, "class": "ignore-prefix-sibling", "ignore_errors": line_entry, "failing": pk_l["filename"], "fault": fault,
+                  "lines": w.lines}
+        if res.exit == 0:
+            probs = w.fsck(url)
+            missing = not os.path.isfile(os.path.join(runner.mirror_dir(w.sb, url), pk_l["filename"])) or \
+                os.path.getsize(os.path.join(runner.mirror_dir(w.sb, url), pk_l["filename"])) != pk_l["size"]
+            if probs or missing:
+                chk.violation("exit0-fsck-dirty:ignore-errors-sibling", replay,
+                              f"exit 0 although {pk_l['filename']} (not below the ignore_errors entry {line_entry!r}) could not be obtained: {(probs or ['file missing'])[0]}")
+        common.correspondence(chk, res, replay, publish=False)
+        chk.evaluated(("ignore-prefix-sibling", how, fault), sample={"class": "ignore-prefix-sibling", "entry": line_entry, "failing": pk_l["filename"], "exit": res.exit})
+        chk.count("class:ignore-prefix-sibling")
+        chk.count(f"exit:{res.exit}")
+        chk.traces += 1
+    finally:
+        run_e2e.flush_l2(chk, {"scenario_seed": sseed, "class": "ignore-prefix-sibling"})
+        w.destroy()
+
+
 def run_one(chk, sseed, cls):
     if cls == "after-crash":
         return after_crash(chk, sseed)
+    if cls == "ignore-prefix-sibling":
+        return ignore_prefix_sibling(chk, sseed)
     rng = random.Random(sseed)
     seed = rng.randrange(1 << 30)
     nrepos = 1 if rng.random() < 0.7 else 2
